@@ -92,7 +92,9 @@ def dbReverseRemove (guarded : Bool) (s : Sess) (p cid : Nat) : Sess × Option E
   | none => (s, some .other)                      -- `obj._vals_[attr]` KeyError
   | some sd =>
     if guarded && sd.full then (s, some .unrepeatable)
-    else (setKids s p { sd with items := sd.items.erase cid }, none)
+    else if sd.items.contains cid then (setKids s p { sd with items := sd.items.erase cid }, none)
+    else (s, some .other)                         -- `set.remove` of an absent item: KeyError (possible after an
+                                                  --  earlier exception left a reverse update half done)
 
 /-- [Attribute.db_update_reverse] for `parent` (reverse is the collection `P.kids`) -/
 def dbUpdateReverse (guarded : Bool) (s : Sess) (cid : Nat) (old : Option Val) (new : Val) : Sess × Option Err :=
